@@ -427,7 +427,7 @@ func vfsStressRound(r *ev.Run, rc *reach, i int) roundVerdict {
 
 // idleInvokerRound: Acquire/Release from many goroutines with failing and
 // slow cleaners and cancelled waiters.
-func idleInvokerRound(r *ev.Run, rc *reach, i int) {
+func idleInvokerRound(r *ev.Run, rc *reach, i int) roundVerdict {
 	rng := r.Rand(14, 8, uint64(i))
 	nWorkers := 8 + rng.IntN(17)
 	iters := 30 + rng.IntN(50)
@@ -477,12 +477,13 @@ func idleInvokerRound(r *ev.Run, rc *reach, i int) {
 	r.SituationN("cleaner-stress-cleans", int(cleans.Load()))
 	r.SituationN("cleaner-stress-cancelled-acquires", int(cancelled.Load()))
 	if v != roundFinished {
-		return
+		return v
 	}
 	if !ii.VerifLockProbe() {
 		r.Violation(leakSig("cleaner", "concurrent-round", "-", "IdleInvoker.lock"), "IdleInvoker lock held after all goroutines finished", witness{Seed: r.Seed(), Phase: "cleaner-stress", Case: i})
 	}
 	r.Hash(ev.HashOf("cleaner-stress", i, nWorkers, failEvery.Load() > 0, cancelled.Load() > 0), cancelled.Load() > 0)
+	return v
 }
 
 func runStress(r *ev.Run, rc *reach) {
@@ -490,7 +491,7 @@ func runStress(r *ev.Run, rc *reach) {
 	// round would most likely block on the same defect, and the goroutines
 	// of a hung round can never be reclaimed.
 	timed(r, "vfs-stress", func() {
-		nVFS := r.Pick(40, 1200)
+		nVFS := r.Pick(60, 1200)
 		hangs := 0
 		for i := 0; i < nVFS && hangs < 2; i++ {
 			if vfsStressRound(r, rc, i) != roundFinished {
@@ -502,7 +503,7 @@ func runStress(r *ev.Run, rc *reach) {
 		}
 	})
 	timed(r, "nfs-stress", func() {
-		nNFS := r.Pick(16, 480)
+		nNFS := r.Pick(30, 600)
 		hangs := 0
 		for i := 0; i < nNFS && hangs < 2; i++ {
 			if nfsStressRound(r, rc, i) != roundFinished {
@@ -512,9 +513,17 @@ func runStress(r *ev.Run, rc *reach) {
 	})
 	timed(r, "lockpile+cleaner-stress", func() {
 		nSmall := r.Pick(10, 200)
-		for i := 0; i < nSmall; i++ {
-			lockPileRound(r, rc, i)
-			idleInvokerRound(r, rc, i)
+		hangs := 0
+		for i := 0; i < nSmall && hangs < 2; i++ {
+			if lockPileRound(r, rc, i) != roundFinished {
+				hangs++
+			}
+		}
+		hangs = 0
+		for i := 0; i < nSmall && hangs < 2; i++ {
+			if idleInvokerRound(r, rc, i) != roundFinished {
+				hangs++
+			}
 		}
 	})
 	r.Floor("lockpile-backoff", 50)
